@@ -57,6 +57,9 @@ def run(ctx, args):
 
     def A(*b):
         return {"op": "Apply", "b": list(b)}
+
+    def F(*b):
+        return {"op": "ApplyF", "b": list(b)}
     deep = [
         ("R", [V("D1"), A("D1"), V("T1"), A("T1"), V("W1"), A("W1"), V("X1"), A("X1"), V("K1"), A("K1"), V("K2"), A("K2")]),
         ("R", [V("D1", "D3"), A("D1", "D3"), V("T1", "X1"), A("T1", "X1"), V("T2", "W1"), A("T2", "W1"), V("K1"), A("K1"), V("K2"), A("K2"), V("T3")]),
@@ -66,6 +69,14 @@ def run(ctx, args):
         ("S", [V("D1"), A("D1"), V("D3"), A("D3"), V("D5"), V("T1", "W1"), V("T1"), A("T1"), V("W1"), A("W1"), V("D5")]),
         ("S", [V("D6", "D3"), A("D6", "D3")]),
         ("R", [V("D1"), A("D1"), V("T1"), A("T1"), V("T2"), V("D3"), A("D3"), V("T2"), V("T3"), A("T2"), V("T3")]),
+        # a competing spender certified by the other nodes displaces this node's pending transaction, which is
+        # then offered again (and, at the end, its certificate is delivered if the node still holds it)
+        ("R", [V("D1"), A("D1"), V("T1"), A("T1"), V("D3"), A("D3"), V("T2"), F("T3"), V("T2")]),
+        ("R", [F("D1"), F("D3", "T1"), V("T3"), F("T2"), V("T3"), V("TI"), V("W1"), A("W1")]),
+        ("R", [F("D1"), F("T1"), V("D3"), V("T2"), A("D3"), V("T2", "TI"), V("T2"), F("T3"), V("T2")]),
+        # outputs that do not add up to the inputs
+        ("S", [V("D3"), A("D3"), V("TD"), V("D1", "TD"), V("D1"), A("D1")]),
+        ("R", [F("D3"), V("TI"), V("D1", "TI"), V("D4")]),
     ]
     for fam, steps in deep:
         walks.append({"fam": fam, "steps": steps})
@@ -82,7 +93,7 @@ def run(ctx, args):
     with open(trace, "w") as fh:
         for e in events:
             fh.write(json.dumps(e) + "\n")
-    ctx.evaluations += sum(1 for e in events if e["ev"] in ("Validate", "Apply"))
+    ctx.evaluations += sum(1 for e in events if e["ev"] in ("Validate", "Apply", "ApplyF"))
     ctx.distinct += len({json.dumps([(e["ev"], e.get("b"), e.get("res")) for e in t[1]]) for t in traces})
     ctx.rule += ("behaviours of spec/Ledger generated by TLC (quick: seeded simulation of families S and R; thorough: edge-cover "
                 "walks of the bounded exhaustive state graphs plus simulation) replayed on a real kernel.Node, one fresh node per walk; distinct = distinct recorded histories (operation, batch, result)")
